@@ -371,8 +371,13 @@ def run_impl(case):
             # kind == design
             with _Spy(dev) as spy:
                 y, H = _call_fbg(dev, x, case["kw"], case["apo"], case["F"], case["filtfilt"])
+            res["ncalls"] = len(spy.calls)
             if len(spy.calls) != 1:
-                res.update(status="err", err="Other", detail=f"solve_ivp called {len(spy.calls)} times")
+                # the solver was not (or not only once) reached through opticomlib.devices.solve_ivp: nothing to tie the model to,
+                # but the returned response and field are still judged by the oracle
+                res.update(status="ok", cls=type(y).__name__, npol=int(y.n_pol), shape=list(y.signal.shape),
+                           inp=_rows(x.signal), out=_rows(y.signal), H=_cl(H), in_unchanged=bool(np.array_equal(x.signal, a)),
+                           finite=bool(np.all(np.isfinite(H)) and np.all(np.isfinite(y.signal))), nfev=0)
                 return res
             call = spy.calls[0]
             k = call["k"]
@@ -455,6 +460,8 @@ def model_requests(case, res):
         dummy = enc_clist([1.0] * n)
         return [f"fbg.finish {c0} {f0} {fs} {spec} 0 {dummy} {dummy} {enc_flist([0.0] * (n - 1))} 0"]
     n = case["n"]
+    if res.get("ncalls") != 1:
+        return [f"fbg.resolve {c0} {spec}"]
     reqs = [f"fbg.resolve {c0} {spec}", f"fbg.coef {c0} {f0} {fs} {n} {spec}"]
     apo = _apo_name(case["apo"])
     for pr in res["probes"]:
@@ -491,6 +498,8 @@ def compare(case, res, reqs, replies):
         return [] if replies[0] == want else [f"out-of-band centre: model {replies[0][:40]!r}, implementation {res['err']} ({res.get('detail')})"]
     out = []
     n = case["n"]
+    if res.get("ncalls") != 1:
+        return [f"scipy.integrate.solve_ivp was called {res.get('ncalls')} times through opticomlib.devices (model: exactly once per FBG call)"]
     it = iter(replies)
     rep = next(it)
     if not rep.startswith("ok "):
@@ -624,7 +633,7 @@ def oracle(case, res):
     tag = f"(n={case['n']}, fs={case['sps'] * case['R']:.3g}, apo={case['apo']}, F={case['F']:.3g}, {case.get('kw') or case.get('kws')})"
     if res.get("status") != "ok":
         return [("C16:raises", f"valid design raised {res.get('err')} {res.get('detail')} {tag}")]
-    if not res["finite"]:
+    if kind != "history" and not res["finite"]:
         return [("C16:non-finite", f"NaN/inf in H or in the output {tag}")]
     if kind == "history":
         lam_d, L, vd = _grating_of(case["kw"])
